@@ -790,7 +790,7 @@ pub fn run_c10(opt: &Options) -> i32 {
     let (models, per) = if opt.thorough() {
         (opt.scaled(1_500_000), 24u64)
     } else {
-        (opt.scaled(40_000), 8u64)
+        (opt.scaled(200_000), 8u64)
     };
     let fps = Distinct::new(30);
     let nontrivial = Distinct::new(30);
